@@ -51,6 +51,9 @@ def cases(tier, rng):
     yield {'objs': [], 'compression': 'gzip', 'via': 'path'}
     yield {'objs': [{}, {'a': 'x\ny'}, {}], 'compression': 'zstd', 'via': 'path'}
     yield {'objs': [{'a': i, 's': 'x' * 50} for i in range(3000)], 'compression': None, 'via': 'shortread'}
+    for comp in (None, 'gzip', 'zstd'):
+        yield {'objs': [{'a': 1}, {'b': 'x'}, {}], 'compression': comp, 'via': 'at_completion'}
+        yield {'objs': [{'a': 1}, {'b': 'x'}, {}], 'compression': comp, 'via': 'open_obj'}
     n = {'quick': 120, 'thorough': 800, 'search': 60}[tier]
     for _ in range(n):
         k = rng.choice([0, 1, 2, 5, 50, 300, 300, 1500]) if tier != 'thorough' else rng.choice([0, 1, 5, 100, 1000, 3000])
@@ -63,7 +66,7 @@ def cases(tier, rng):
                 objs[rng.randrange(k)] = {'big': 'x' * rng.choice([70000, 140000])}
         else:
             objs = [gen_obj(rng) for _ in range(k)]
-        yield {'objs': objs, 'compression': rng.choice([None, 'gzip', 'zstd']), 'via': rng.choice(['path', 'path', 'open_obj', 'fileobj', 'shortread'])}
+        yield {'objs': objs, 'compression': rng.choice([None, 'gzip', 'zstd']), 'via': rng.choice(['path', 'path', 'open_obj', 'fileobj', 'shortread', 'at_completion'])}
 
 
 def real(case):
@@ -75,14 +78,29 @@ def real(case):
     opened = []
 
     def my_open(name, mode, encoding=None):
+        # an opener that keeps its files somewhere else (a store with its own name space): `name` is not a local path
         opened.append(mode)
-        return open(name, mode)
+        return open(name + '.alt', mode)
     try:
         kw = {'compression': case['compression']}
         if case['via'] == 'open_obj':
             kw['open_obj'] = my_open
-        rx.from_(case['objs']).pipe(rsjson.dump_to_file(path, **kw)).subscribe(on_error=errs.append)
-        raw = open(path, 'rb').read()
+        if case['via'] == 'at_completion':
+            # the dataset pushed by the application (no scheduler involved); the file is read back from inside the completion
+            # notification of the dump: by then everything must be in the file
+            from rx.subject import Subject
+            subj = Subject()
+
+            def read_back():
+                rsjson.load_from_file(path, **kw).subscribe(on_next=back.append, on_error=errs.append)
+            subj.pipe(rsjson.dump_to_file(path, **kw)).subscribe(on_error=errs.append, on_completed=read_back)
+            for o in case['objs']:
+                subj.on_next(o)
+            subj.on_completed()
+            raw = open(path, 'rb').read()
+        else:
+            rx.from_(case['objs']).pipe(rsjson.dump_to_file(path, **kw)).subscribe(on_error=errs.append)
+            raw = open(path + '.alt' if case['via'] == 'open_obj' else path, 'rb').read()
         if case['via'] == 'shortread':
             # a file-like object that legally returns fewer bytes than asked before the end (pipe / socket like)
             class Short(object):
@@ -96,6 +114,8 @@ def real(case):
                         return self.b.read()
                     return self.b.read(max(1, n // (2 + self.k % 3)))
             rsjson.load_from_file(Short(raw), compression=case['compression']).subscribe(on_next=back.append, on_error=errs.append)
+        elif case['via'] == 'at_completion':
+            pass
         elif case['via'] == 'fileobj':
             src = io.BytesIO(raw)
             rsjson.load_from_file(src, compression=case['compression']).subscribe(on_next=back.append, on_error=errs.append)
@@ -103,6 +123,8 @@ def real(case):
             rsjson.load_from_file(path, **kw).subscribe(on_next=back.append, on_error=errs.append)
     finally:
         os.unlink(path)
+        if os.path.exists(path + '.alt'):
+            os.unlink(path + '.alt')
     if case['compression'] == 'gzip':
         plain = gzip.decompress(raw) if raw else b''
     elif case['compression'] == 'zstd':
